@@ -15,3 +15,12 @@ def take():
 
 def count():
     return len(_log)
+
+
+TABLE = {}
+
+
+def produce(fname, k):
+    """Body of the table-driven harness functions: record the run, then return/raise TABLE[(fname, k)]()."""
+    _log.append((fname, {"k": k}))
+    return TABLE[(fname, k)]()
